@@ -5,7 +5,7 @@
     [C08_ignore_transparent_call/_stream]: deleting every signal from any history leaves the whole
     state (trace, outcome, items yielded, wake-ups) unchanged except the wrapper's own bookkeeping. *)
 From FG Require Import Dag Builder Sched DagFacts EdgeFacts RankFacts BuilderFacts TopoFacts AugFacts BuildFacts
-     SchedInv SchedInv2 SafetyFacts CfgFacts SI_Queuer SI_Step SI2_Step LiveRun IntCredit IntRun IntStream IntTransparent.
+     SchedInv SchedInv2 SafetyFacts CfgFacts SI_Queuer SI_Step SI2_Step LiveRun IntCredit IntRun IntStream IntTransparent Opts OptsFacts.
 
 Definition interrupt_bound (st : strat) (incl pending : bool) : nat :=
   match st with
@@ -46,6 +46,38 @@ Proof.
   unfold interrupt_bound. unfold cf in Hcred at 1 2. simpl in Hcred. lia.
 Qed.
 Print Assumptions C08_started_after_signal.
+
+(** The strategy and the include flag reach the call through `StreamOpts`, assembled by a chain of
+    builder calls in any order ([Opts.opts_build]).  The bound is the one of the *last*
+    `interruptibility_state` and the *last* `interrupted_next_item_include` of the chain (defaults:
+    non-interruptible, include = true): no later call of another setter resets either, whatever the
+    order of the chain. *)
+Theorem C08_bound_for_any_setter_chain : forall ops G p q calls a mt ctl lim imm evs1 evs2,
+  build (builder_run ops) = BOk G p q ->
+  let st := last_state calls SNonInt in
+  let incl := last_incl calls true in
+  st <> SNonInt -> st <> SIgnore ->
+  let cf := mk_cfg_opts G (opts_build calls) a mt ctl lim imm true in
+  let s1 := run cf evs1 in
+  let s2 := run cf (evs1 ++ EInt :: evs2) in
+  length (starts (trace s2)) <= length (starts (trace s1)) + interrupt_bound st incl (w_hp (w s1)).
+Proof.
+  intros ops G p q calls a mt ctl lim imm evs1 evs2 Hb st incl N1 N2.
+  unfold mk_cfg_opts. rewrite opts_build_spec. cbn [so_rev so_strat so_incl].
+  apply (C08_started_after_signal ops G p q (existsb is_rev calls) a mt ctl lim st incl imm evs1 evs2 Hb N1 N2).
+Qed.
+Print Assumptions C08_bound_for_any_setter_chain.
+
+(** In particular `interrupted_next_item_include(false)` followed by `interruptibility_state(..)`
+    (and any `rev()`s) still means "start nothing more after the signal" under FinishCurrent. *)
+Theorem C08_include_false_survives_later_setters : forall pre post st,
+  (forall c, In c post -> match c with OIncl _ => False | _ => True end) ->
+  so_incl (opts_build (pre ++ OIncl false :: post ++ [OState st])) = false.
+Proof.
+  intros pre post st Hpost. apply (opts_incl_survives pre false (post ++ [OState st])).
+  intros c Hin. apply in_app_or in Hin. destruct Hin as [Hin | [<- | []]]; [apply Hpost; exact Hin | exact I].
+Qed.
+Print Assumptions C08_include_false_survives_later_setters.
 
 (** The signal is already pending when the call begins: FinishCurrent (and PollNextN 0) runs
     nothing, PollNextN (S k) at most S k functions. *)
